@@ -22,7 +22,12 @@ const (
 	verifNotReady = 0
 	verifFired    = 1
 	verifExit     = 2
+	verifYielded  = 3 // the handler is held in front of a reply send (VerifYieldReplies)
 )
+
+// VerifYieldReplies: handlers that answer a caller (Stats, Trackers, Peers, Webseeds, NotifyStop, Port) stop in
+// front of the reply send and report verifYielded; VerifResume lets them go on.
+var VerifYieldReplies bool
 
 // VerifControlled switches every torrent loop created afterwards to the explorer-controlled loop.
 var VerifControlled bool
@@ -33,9 +38,27 @@ type VerifReply struct {
 }
 
 type verifCtl struct {
-	req chan int
-	rep chan VerifReply
+	req    chan int
+	rep    chan VerifReply
+	resume chan struct{}
 }
+
+func (t *torrent) verifYield(idx int) {
+	if !VerifYieldReplies {
+		return
+	}
+	verifMu.Lock()
+	ctl := verifCtls[t]
+	verifMu.Unlock()
+	if ctl == nil {
+		return
+	}
+	ctl.rep <- VerifReply{Code: verifYielded}
+	<-ctl.resume
+}
+
+// VerifResume lets a handler that reported verifYielded continue.
+func (t *Torrent) VerifResume() { t.verifCtl().resume <- struct{}{} }
 
 var (
 	verifMu   sync.Mutex
@@ -86,7 +109,7 @@ func (t *Torrent) VerifEvents() []VerifEvent {
 }
 
 func (t *torrent) verifLoop() {
-	ctl := &verifCtl{req: make(chan int), rep: make(chan VerifReply, 1)}
+	ctl := &verifCtl{req: make(chan int), rep: make(chan VerifReply, 1), resume: make(chan struct{})}
 	verifMu.Lock()
 	verifCtls[t] = ctl
 	verifMu.Unlock()
